@@ -9,6 +9,11 @@ uncached object; arrays handed out are read-only and refuse writes.
 """
 import numpy as np
 
+
+def BITS(a):
+    """the bytes of an array, whatever its memory layout (a result may legitimately be Fortran-ordered or strided)"""
+    return np.ascontiguousarray(np.asarray(a)).view(np.uint8)
+
 import fixtures
 
 METHS = ["leg_points", "orientations_of_legs_points", "inc_leg_size", "inc_leg_cartesian", "inc_leg_radius", "inc_leg_polar",
@@ -81,7 +86,7 @@ def same_value(a, b):
     A, B = arrays_of(a), arrays_of(b)
     if (a is None) != (b is None) or len(A) != len(B):
         return False
-    return all(x.shape == y.shape and x.dtype == y.dtype and np.array_equal(x.view(np.uint8), y.view(np.uint8)) for x, y in zip(A, B))
+    return all(x.shape == y.shape and x.dtype == y.dtype and np.array_equal(BITS(x), BITS(y)) for x, y in zip(A, B))
 
 
 def call(fn):
